@@ -522,7 +522,21 @@ def u6_u8(prog, ctx):
         ctx.ok("U8", "no in-place string shifting", "", "no memmove() on text in lib/ and util/ besides the entry array")
 
 
+def u11_u12_imports(prog, ctx):
+    """U11: `cat` names the files that were consulted and `show` merges them as the library does: a file found under an absolute name is
+    recorded - and compared for same-name masking - under that name, not under the target of a symbolic link (= C01.L16).
+    U12: `syntax` names the malformed file: the location record holds the whole path of the file being parsed (= C13.E2)."""
+    from rules import common as _common
+    from rules import C01 as _C01, C13 as _C13
+    from rules import parser as _parser
+    _common.import_obligations(ctx, prog, [_C01.l15_l17], "U11", "files are recorded under the name they were found by: ", keep=lambda ob: ob.rule == "L16",
+                               what="recording of file names")
+    _common.import_obligations(ctx, prog, [lambda p9, c9: _C13.e2(p9, c9, _parser.landmarks(p9))], "U12", "syntax names the malformed file: ",
+                               keep=lambda ob: "location" in ob.instance, what="error location record")
+
+
 def run(prog, ctx):
+    u11_u12_imports(prog, ctx)
     u1(prog, ctx)
     u2(prog, ctx)
     u3_u4(prog, ctx)
